@@ -386,6 +386,17 @@ func (s *session) runBidiStream(wstream io.ReadWriteCloser) error {
 	}
 }
 
+// maxReasonLen bounds the reason phrase of REQUEST_ERROR: the error text embeds the path name
+// chosen by the client, and the payload of a control message must fit its 16-bit length field.
+const maxReasonLen = 1024
+
+func truncateReason(s string) string {
+	if len(s) > maxReasonLen {
+		return s[:maxReasonLen]
+	}
+	return s
+}
+
 func (s *session) getPathNameAndQuery() (string, string) {
 	s.mutex.Lock()
 	defer s.mutex.Unlock()
@@ -430,7 +441,7 @@ func (s *session) onSubscribeCatalog(wstream io.ReadWriteCloser, m *controlmessa
 
 		wstream.Write(controlmessage.RequestError{ //nolint:errcheck
 			Code:   code,
-			Reason: err.Error(),
+			Reason: truncateReason(err.Error()),
 		}.Marshal())
 
 		// wait for the client to read the error
@@ -640,7 +651,7 @@ func (s *session) onPublishCatalog(wstream io.ReadWriteCloser, m *controlmessage
 
 			wstream.Write(controlmessage.RequestError{ //nolint:errcheck
 				Code:   code,
-				Reason: err.Error(),
+				Reason: truncateReason(err.Error()),
 			}.Marshal()) //nolint:errcheck
 
 			// wait for the client to read the error
